@@ -9,6 +9,7 @@ import (
 	"os"
 	"runtime"
 	"strings"
+	"sync/atomic"
 	"syscall"
 	"testing"
 	"testing/synctest"
@@ -649,6 +650,137 @@ func TestHugeTotals(t *testing.T) {
 		ev.Label("huge_total")
 		ev.Case(true, ev.Hash("huge", fmt.Sprint(n, odd)), func() string {
 			return fmt.Sprintf("%d writes of 64 MiB (one %d bytes shorter): total %d bytes", n, odd, total)
+		})
+	})
+}
+
+// ---- io.Copy into the ProgressWriter ----
+
+// tally is a wrapped writer that adds up what it reports, through whichever entry point it is driven.
+type tally struct {
+	reported  int
+	failAfter int // report an error once this many bytes have been taken (-1: never)
+	calls     []string
+}
+
+func (w *tally) take(n int) (int, error) {
+	if w.failAfter >= 0 && w.reported+n > w.failAfter {
+		k := max(0, w.failAfter-w.reported)
+		w.reported += k
+		return k, errBoom
+	}
+	w.reported += n
+	return n, nil
+}
+
+func (w *tally) Write(p []byte) (int, error) {
+	w.calls = append(w.calls, "Write")
+	return w.take(len(p))
+}
+
+// tallyRF additionally offers io.ReaderFrom, as bytes.Buffer, bufio.Writer, *os.File and TCP connections do.
+type tallyRF struct{ tally }
+
+func (w *tallyRF) ReadFrom(r io.Reader) (int64, error) {
+	w.calls = append(w.calls, "ReadFrom")
+	var total int64
+	buf := make([]byte, 700)
+	for {
+		n, rerr := r.Read(buf)
+		k, werr := w.take(n)
+		total += int64(k)
+		if werr != nil {
+			return total, werr
+		}
+		if rerr == io.EOF {
+			return total, nil
+		}
+		if rerr != nil {
+			return total, rerr
+		}
+	}
+}
+
+// source yields size bytes in pieces and then io.EOF or an error; it offers nothing but Read.
+type source struct {
+	left, piece int
+	err         error
+}
+
+func (s *source) Read(p []byte) (int, error) {
+	if s.left == 0 {
+		if s.err != nil {
+			return 0, s.err
+		}
+		return 0, io.EOF
+	}
+	n := min(len(p), s.left, s.piece)
+	s.left -= n
+	return n, nil
+}
+
+// TestCopyInto: the writer is driven by io.Copy / io.CopyN / io.CopyBuffer (which look for io.ReaderFrom on the
+// destination and io.WriterTo on the source before they fall back to Write), from sources that end or fail half-way, into
+// wrapped writers with and without a fast path of their own that may fail half-way too. Size() is what the wrapped
+// writer reported, whichever way the bytes went.
+func TestCopyInto(t *testing.T) {
+	rt.Check(t, 600, 100000, func(t *rapid.T) {
+		size := rapid.SampledFrom([]int{0, 1, 699, 700, 701, 5000, 40000, 100000}).Draw(t, "sourceBytes")
+		src := &source{left: size, piece: rapid.SampledFrom([]int{1, 7, 512, 4096, 1 << 20}).Draw(t, "piece")}
+		if rapid.IntRange(0, 2).Draw(t, "sourceFails") == 0 {
+			src.err = errors.New("source: connection reset")
+		}
+		failAfter := -1
+		if rapid.IntRange(0, 2).Draw(t, "destinationFails") == 0 {
+			failAfter = rapid.IntRange(0, size+1).Draw(t, "destinationFailsAfter")
+		}
+		var wrapped io.Writer
+		var tl *tally
+		fast := rapid.Bool().Draw(t, "wrappedWriterOffersReadFrom")
+		if fast {
+			w := &tallyRF{tally{failAfter: failAfter}}
+			wrapped, tl = w, &w.tally
+		} else {
+			w := &tally{failAfter: failAfter}
+			wrapped, tl = w, w
+		}
+		pw := ioutil.NewProgressWriter(wrapped)
+		var last atomic.Int64
+		last.Store(-1)
+		done := make(chan struct{})
+		go func() {
+			defer close(done)
+			for v := range pw.Status() {
+				last.Store(int64(v))
+			}
+		}()
+		pw.Write([]byte("prelude")) // 7 bytes the ordinary way first
+		how := rapid.IntRange(0, 2).Draw(t, "how")
+		var n int64
+		var err error
+		switch how {
+		case 0:
+			n, err = io.Copy(pw, src)
+		case 1:
+			n, err = io.CopyN(pw, src, int64(size))
+		default:
+			n, err = io.CopyBuffer(pw, src, make([]byte, 333))
+		}
+		if got := pw.Size(); got != tl.reported {
+			t.Fatalf("after %s of %d bytes (source error %v, destination fails after %d, wrapped writer offers ReadFrom: %v; copy returned %d, %v; wrapped writer was driven through %v): Size() = %d, the wrapped writer reported %d bytes",
+				[]string{"io.Copy", "io.CopyN", "io.CopyBuffer"}[how], size, src.err, failAfter, fast, n, err, tl.calls[:min(len(tl.calls), 6)], got, tl.reported)
+		}
+		pw.Close()
+		<-done
+		if int(last.Load()) != tl.reported {
+			t.Fatalf("after Close() the last value received is %d, the wrapped writer reported %d bytes (copy returned %d, %v)", last.Load(), tl.reported, n, err)
+		}
+		ev.Label("copy_into_the_writer")
+		if src.err != nil || (failAfter >= 0 && failAfter <= size+7) {
+			ev.Label("copy_that_fails_half-way")
+		}
+		ev.Case(src.err != nil || failAfter >= 0, ev.Hash("copy", fmt.Sprint(size, src.piece, src.err != nil, failAfter, fast, how)), func() string {
+			return fmt.Sprintf("copy of %d bytes in pieces of %d into the writer (source fails: %v, destination fails after %d, wrapped ReadFrom: %v)", size, src.piece, src.err != nil, failAfter, fast)
 		})
 	})
 }
